@@ -23,6 +23,18 @@
 (*                   is installed and no UPDATE written with closed = TRUE  *)
 (*                   read under the session's own lock                      *)
 (*                                                                          *)
+(*   NoSpuriousReset the session never ends a connection of a peer that     *)
+(*                   behaves: an end of stream seen by the peer is only     *)
+(*                   explained by its own drop, a wrong ASN it presented,   *)
+(*                   or a Close call that has begun                         *)
+(*   (Converges includes AS_PATH: an UPDATE whose AS_PATH is not the        *)
+(*   intended one IN THE WIDTH THE PEER ANNOUNCED ON THAT CONNECTION -      *)
+(*   4 octets iff its OPEN carried capability 65 - enters the table with    *)
+(*   the attribute value "?aspath".)  Names starting with "C16." are        *)
+(*   aliases picked up by the side run of the wire property:                *)
+(*   C16.SessionAsPathWidth, C16.SessionSpuriousReset (a reset of a         *)
+(*   connection on which the peer pipelined messages behind its OPEN).      *)
+(*                                                                          *)
 (* (b) hook side - trace validation against BGPSession: every hook event    *)
 (*   must be an enabled action of the specification whose post-state has    *)
 (*   the logged closed / conn # nil / advertised / new.  An event that is   *)
@@ -32,7 +44,7 @@
 (*   ("C17.FullResendHook": what was written on this connection amounts to  *)
 (*   the complete advertised set whenever the sender goes to wait).         *)
 (***************************************************************************)
-EXTENDS BGPSession, Json, TLC
+EXTENDS BGPSession, Integers, Json, TLC
 
 Trace == ndJsonDeserialize("obs.ndjson")
 N == Len(Trace)
@@ -49,9 +61,11 @@ VARIABLES
   estab,    \* peer indices of the connections the session installed (hook "connected"), in order
   okc,      \* (a) connections on which the peer presented the expected ASN, in order
   lateOpen, \* (a) connections whose OPEN the peer answered after Close had returned
+  pipec,    \* (a) connections on which the peer pipelined messages behind its OPEN
+  closeCall,\* (a) a Close call has begun
   closeRet  \* (a) Close has returned
 
-tvars == <<i, sync, fl, tabs, ann, wrongc, lastAcc, deadc, estab, okc, lateOpen, closeRet>>
+tvars == <<i, sync, fl, tabs, ann, wrongc, lastAcc, deadc, estab, okc, lateOpen, pipec, closeCall, closeRet>>
 
 Big == [sets |-> 1000000, drops |-> 1000000, refuse |-> 1000000]
 Tbl(x) == [r \in Routes |-> x[r]]
@@ -137,8 +151,32 @@ ModelDrop(o) ==
 TableOf(c) == {[r |-> t.r, a |-> t.a] : t \in {u \in tabs : u.c = c}}
 AnnouncedOn(c) == {t.r : t \in {u \in ann : u.c = c}}
 
+(* value of path attribute `code` in the raw attribute octets b (from position p): <<-1>> if     *)
+(* absent, <<-2>> if the attribute list is malformed                                             *)
+RECURSIVE AttrValue(_, _, _)
+AttrValue(b, p, code) ==
+  IF p > Len(b) THEN <<-1>>
+  ELSE IF p + 2 > Len(b) THEN <<-2>>
+  ELSE LET ext == (b[p] \div 16) % 2 = 1 IN
+       IF ext /\ p + 3 > Len(b) THEN <<-2>>
+       ELSE LET hl == IF ext THEN 4 ELSE 3
+                ln == IF ext THEN b[p + 2] * 256 + b[p + 3] ELSE b[p + 2] IN
+            IF p + hl + ln - 1 > Len(b) THEN <<-2>>
+            ELSE IF b[p + 1] = code THEN SubSeq(b, p + hl, p + hl + ln - 1)
+            ELSE AttrValue(b, p + hl + ln, code)
+
+AsnOctets(n, width) ==
+  IF width = 4 THEN <<0, 0, (n \div 256) % 256, n % 256>> ELSE <<(n \div 256) % 256, n % 256>>   \* n < 65536 here
+
+(* the AS_PATH the statement of C16 intends, in the width the peer announced on this connection: *)
+(* empty on an iBGP session, one AS_SEQUENCE holding the own ASN otherwise                       *)
+IntendedAsPath(o) ==
+  IF o.ibgp THEN <<>> ELSE <<2, 1>> \o AsnOctets(o.myasn, IF o.cap65 THEN 4 ELSE 2)
+AsPathOK(o) == AttrValue(o.attrs, 1, 2) = IntendedAsPath(o)
+
 ApplyMsg(o) ==
-  CASE o.t = "upd" -> /\ tabs' = {t \in tabs : ~(t.c = o.c /\ t.r = o.r)} \cup {[c |-> o.c, r |-> o.r, a |-> o.a]}
+  CASE o.t = "upd" -> /\ tabs' = {t \in tabs : ~(t.c = o.c /\ t.r = o.r)}
+                                 \cup {[c |-> o.c, r |-> o.r, a |-> IF AsPathOK(o) THEN o.a ELSE "?aspath"]}
                       /\ ann' = ann \cup {[c |-> o.c, r |-> o.r]}
     [] o.t = "wdr" -> /\ tabs' = {t \in tabs : ~(t.c = o.c /\ t.r \in Range(o.rs))}
                       /\ ann' = ann
@@ -154,6 +192,9 @@ PeerFails(o) ==
          If(TableOf(o.c) = Range(o.req), "C17.Converges")
          \cup If(FirstEstab(o.c) \/ {x.r : x \in Range(o.req)} \subseteq AnnouncedOn(o.c), "C17.FullResend")
     [] o.k = "msg" -> If(o.c \notin wrongc, "C17.RefuseWrongASN") \cup If(o.c \notin lateOpen, "C17.QuietAfterClose")
+                      \cup (IF o.t = "upd" /\ ~AsPathOK(o) THEN {"C16.SessionAsPathWidth"} ELSE {})
+    [] o.k = "eof" -> IF o.c \in wrongc \/ o.c \in deadc \/ closeCall THEN {}
+                      ELSE {"C17.NoSpuriousReset"} \cup (IF o.c \in pipec THEN {"C16.SessionSpuriousReset"} ELSE {})
     [] o.k = "accept" -> If(~closeRet, "C17.QuietAfterClose")
     [] o.k = "hook" ->
          (IF o.st /\ o.closed /\ o.pt \in SentEvents \cup {"connected"} THEN {"C17.QuietAfterClose"} ELSE {})
@@ -164,16 +205,16 @@ PeerFails(o) ==
 TInit ==
   /\ InitWith(Big)
   /\ i = 0 /\ sync = TRUE /\ fl = {}
-  /\ tabs = {} /\ ann = {} /\ wrongc = {} /\ lastAcc = 0 /\ deadc = {} /\ estab = <<>> /\ okc = <<>> /\ lateOpen = {} /\ closeRet = FALSE
+  /\ tabs = {} /\ ann = {} /\ wrongc = {} /\ lastAcc = 0 /\ deadc = {} /\ estab = <<>> /\ okc = <<>> /\ lateOpen = {} /\ pipec = {} /\ closeCall = FALSE /\ closeRet = FALSE
 
-PeerVarsUnchanged == UNCHANGED <<tabs, ann, wrongc, lastAcc, deadc, estab, okc, lateOpen, closeRet>>
+PeerVarsUnchanged == UNCHANGED <<tabs, ann, wrongc, lastAcc, deadc, estab, okc, lateOpen, pipec, closeCall, closeRet>>
 
 Line(o) ==
   CASE o.k = "meta" ->
          /\ ResetModel /\ sync' = o.hooks /\ fl' = {}
-         /\ tabs' = {} /\ ann' = {} /\ wrongc' = {} /\ lastAcc' = 0 /\ deadc' = {} /\ estab' = <<>> /\ okc' = <<>> /\ lateOpen' = {} /\ closeRet' = FALSE
+         /\ tabs' = {} /\ ann' = {} /\ wrongc' = {} /\ lastAcc' = 0 /\ deadc' = {} /\ estab' = <<>> /\ okc' = <<>> /\ lateOpen' = {} /\ pipec' = {} /\ closeCall' = FALSE /\ closeRet' = FALSE
     [] o.k = "hook" ->
-         /\ UNCHANGED <<tabs, ann, wrongc, lastAcc, deadc, okc, lateOpen, closeRet>>
+         /\ UNCHANGED <<tabs, ann, wrongc, lastAcc, deadc, okc, lateOpen, pipec, closeCall, closeRet>>
          /\ estab' = IF o.pt = "connected" THEN Append(estab, lastAcc) ELSE estab
          /\ IF ~sync THEN Stutter /\ sync' = sync /\ fl' = PeerFails(o)
             ELSE \/ /\ HookStep(o) /\ sync' = TRUE
@@ -184,23 +225,29 @@ Line(o) ==
                     /\ fl' = PeerFails(o) \cup {"DRIFT." \o o.pt}
     [] o.k = "drop" ->
          /\ ModelDrop(o) /\ deadc' = deadc \cup {o.c} /\ fl' = {}
-         /\ UNCHANGED <<sync, tabs, ann, wrongc, lastAcc, estab, okc, lateOpen, closeRet>>
+         /\ UNCHANGED <<sync, tabs, ann, wrongc, lastAcc, estab, okc, lateOpen, pipec, closeCall, closeRet>>
     [] o.k = "accept" ->
          /\ Stutter /\ lastAcc' = o.c /\ fl' = PeerFails(o)
-         /\ UNCHANGED <<sync, tabs, ann, wrongc, deadc, estab, okc, lateOpen, closeRet>>
+         /\ UNCHANGED <<sync, tabs, ann, wrongc, deadc, estab, okc, lateOpen, pipec, closeCall, closeRet>>
     [] o.k = "sentopen" ->
          /\ Stutter /\ wrongc' = (IF o.wrong THEN wrongc \cup {o.c} ELSE wrongc) /\ fl' = {}
          /\ okc' = (IF o.wrong THEN okc ELSE Append(okc, o.c))
          /\ lateOpen' = (IF closeRet THEN lateOpen \cup {o.c} ELSE lateOpen)
-         /\ UNCHANGED <<sync, tabs, ann, lastAcc, deadc, estab, closeRet>>
+         /\ pipec' = (IF o.pipe THEN pipec \cup {o.c} ELSE pipec)
+         /\ UNCHANGED <<sync, tabs, ann, lastAcc, deadc, estab, closeCall, closeRet>>
     [] o.k = "msg" ->
          /\ Stutter /\ ApplyMsg(o) /\ fl' = PeerFails(o)
-         /\ UNCHANGED <<sync, wrongc, lastAcc, deadc, estab, okc, lateOpen, closeRet>>
+         /\ UNCHANGED <<sync, wrongc, lastAcc, deadc, estab, okc, lateOpen, pipec, closeCall, closeRet>>
     [] o.k = "settled" ->
          /\ Stutter /\ fl' = PeerFails(o) /\ UNCHANGED sync /\ PeerVarsUnchanged
+    [] o.k = "eof" ->
+         /\ Stutter /\ fl' = PeerFails(o) /\ UNCHANGED sync /\ PeerVarsUnchanged
+    [] o.k = "close.call" ->
+         /\ Stutter /\ closeCall' = TRUE /\ fl' = {}
+         /\ UNCHANGED <<sync, tabs, ann, wrongc, lastAcc, deadc, estab, okc, lateOpen, pipec, closeRet>>
     [] o.k = "close.ret" ->
          /\ Stutter /\ closeRet' = TRUE /\ fl' = {}
-         /\ UNCHANGED <<sync, tabs, ann, wrongc, lastAcc, deadc, estab, okc, lateOpen>>
+         /\ UNCHANGED <<sync, tabs, ann, wrongc, lastAcc, deadc, estab, okc, lateOpen, pipec, closeCall>>
     [] OTHER -> Stutter /\ fl' = {} /\ UNCHANGED sync /\ PeerVarsUnchanged
 
 (* The sender's exits from sendUpdates after a wake-up (closed: return false; conn = nil: return  *)
@@ -212,14 +259,14 @@ NeedsImplicit(o) ==
 ImplicitSenderLeave ==
   /\ snd' = At(IF closed THEN "done" ELSE "dial") /\ act' = [a |-> "Implicit"]
   /\ UNCHANGED <<call, closed, conn, nconn, advertised, new, readers, PeerSide, lastRequested, budget, cnt>>
-  /\ fl' = {} /\ UNCHANGED <<i, sync, tabs, ann, wrongc, lastAcc, deadc, estab, okc, lateOpen, closeRet>>
+  /\ fl' = {} /\ UNCHANGED <<i, sync, tabs, ann, wrongc, lastAcc, deadc, estab, okc, lateOpen, pipec, closeCall, closeRet>>
 
 (* connect() has no hook point between taking s.mu and installing the connection: the start of *)
 (* the handshake (ConnectBegin) is taken, without consuming a line, when "connected" arrives.   *)
 NeedsBegin(o) == o.k = "hook" /\ sync /\ o.pt = "connected" /\ snd.pc = "dial" /\ ~closed
 ImplicitConnectBegin ==
   /\ ConnectBegin
-  /\ fl' = {} /\ UNCHANGED <<i, sync, tabs, ann, wrongc, lastAcc, deadc, estab, okc, lateOpen, closeRet>>
+  /\ fl' = {} /\ UNCHANGED <<i, sync, tabs, ann, wrongc, lastAcc, deadc, estab, okc, lateOpen, pipec, closeCall, closeRet>>
 
 TNext == /\ i < N
          /\ LET o == Trace[i + 1] IN
@@ -230,8 +277,12 @@ TNext == /\ i < N
 Info(o) ==
   IF o.k = "settled"
   THEN [c |-> o.c, table |-> TableOf(o.c), req |-> Range(o.req), announced |-> AnnouncedOn(o.c), first |-> FirstEstab(o.c), pt |-> ""]
-  ELSE [c |-> IF o.k \in {"msg", "accept"} THEN o.c ELSE 0, table |-> {}, req |-> {}, announced |-> {}, first |-> FALSE,
-        pt |-> IF o.k = "hook" THEN o.pt ELSE o.k]
+  ELSE [c |-> IF o.k \in {"msg", "accept", "eof"} THEN o.c ELSE 0, table |-> {}, req |-> {}, announced |-> {}, first |-> FALSE,
+        pt |-> IF o.k = "hook" THEN o.pt ELSE o.k,
+        cap65 |-> IF o.k = "msg" /\ o.t = "upd" THEN o.cap65 ELSE FALSE,
+        aspath |-> IF o.k = "msg" /\ o.t = "upd" THEN AttrValue(o.attrs, 1, 2) ELSE <<>>,
+        pipe |-> IF o.k = "eof" THEN o.c \in pipec ELSE FALSE,
+        why |-> IF o.k = "eof" THEN o.why ELSE ""]
 
 (* printed once per state: the failing predicates of line i; "done" proves every line was consumed *)
 Judge ==
